@@ -2740,6 +2740,116 @@ def t68_ok_attrs_dict_copy(agg):
     a = dict(agg.attrs)
     a['k'] = 1
     return xr.DataArray(np.zeros(3), attrs=a)
+
+# ---- wrapper level: which components of the result come from which components of the input
+def t70_shallow_copy_template(agg):
+    out = np.zeros(3)
+    result = agg.copy(deep=False, data=out)
+    result.name = 'n'
+    return result
+
+def t71_ok_deep_copy_template(agg):
+    return agg.copy(deep=True, data=np.zeros(3))
+
+def t72_attrs_fallback_alias_store(agg):
+    try:
+        attrs = copy.deepcopy(agg.attrs)
+    except TypeError:
+        attrs = agg.attrs
+    attrs['unit'] = '%'
+    return xr.DataArray(np.zeros(3), coords=agg.coords, dims=agg.dims, attrs=attrs)
+
+def t73_ok_ctor(agg):
+    return xr.DataArray(np.zeros(3), name='n', coords=agg.coords, dims=agg.dims, attrs=agg.attrs)
+
+def t74_arith_keeps_coords(agg):
+    return agg * 2
+
+def t75_astype_keeps_coords(agg):
+    return agg.astype('f4')
+
+def t76_ok_deep_copy_then_arith(agg):
+    c = agg.copy(deep=True)
+    return c * 2
+
+def t77_ok_default_copy_is_deep(agg):
+    return agg.copy(data=np.zeros(3))
+
+def t78_ok_zeros_like(agg):
+    return xr.zeros_like(agg)
+
+def t79_where_keeps_coords(agg):
+    return agg.where(agg > 0)
+
+def t80_ufunc_on_object(agg):
+    return np.sqrt(agg)
+
+def t81_ok_ufunc_on_cells(agg):
+    return xr.DataArray(np.sqrt(agg.data), coords=agg.coords, dims=agg.dims, attrs=agg.attrs)
+
+def t82_to_dataset(agg):
+    return agg.to_dataset(name='a')
+
+def t83_ok_deep_to_dataset(agg):
+    ds = agg.copy(deep=True).to_dataset(name='a')
+    ds['b'] = xr.DataArray(np.zeros(3))
+    return ds
+
+def t84_assign_coords_from_input(agg):
+    out = xr.DataArray(np.zeros(3), dims=agg.dims)
+    return out.assign_coords(lon=agg.coords['lon'])
+
+def t85_copy_deep_flag_unknown(agg, deep=None):
+    return agg.copy(deep=deep, data=np.zeros(3))
+
+def t86_copy_copy(agg):
+    c = copy.copy(agg)
+    return xr.DataArray(np.zeros(3), coords=c.coords, dims=c.dims).assign_coords(band=c.band)
+
+def t87_ok_copy_deepcopy(agg):
+    c = copy.deepcopy(agg)
+    c.attrs['k'] = 1
+    c.coords['lon'].values[0] = 1
+    return c
+
+def t88_shallow_copy_coord_write(agg):
+    c = agg.copy(deep=False)
+    c.coords['lon'].values[0] = 1
+    return xr.DataArray(np.zeros(3))
+
+def t89_ok_shallow_copy_attrs_are_own(agg):
+    c = agg.copy(deep=False, data=np.zeros(3))
+    c.attrs['k'] = 1
+    return xr.DataArray(c.data, coords=agg.coords, dims=agg.dims, attrs=c.attrs)
+
+def t90_attrs_setattr(agg):
+    agg.attrs = dict(agg.attrs, k=1)
+    return xr.DataArray(np.zeros(3))
+
+def t91_name_store(agg):
+    agg.name = 'renamed'
+    return xr.DataArray(np.zeros(3))
+
+def t92_ok_astype_cells_fresh(agg):
+    c = agg.astype('f8')
+    c.data[:] = 0
+    return xr.DataArray(c.data, coords=agg.coords, dims=agg.dims, attrs=agg.attrs)
+
+def t93_transpose_view(agg):
+    return agg.T
+
+def t94_compare_keeps_coords(agg):
+    return agg > 0
+
+def t95_ok_return_helper_ctor(agg, flag=None):
+    if flag:
+        return xr.DataArray(np.zeros(3), coords=agg.coords, dims=agg.dims, attrs=agg.attrs)
+    return xr.DataArray(np.ones(3), coords=agg.coords, dims=agg.dims, attrs=agg.attrs)
+
+def t96_return_either(agg, flag=None):
+    if flag:
+        return xr.DataArray(np.zeros(3), coords=agg.coords, dims=agg.dims, attrs=agg.attrs)
+    return agg.copy(deep=False, data=np.ones(3))
 '''
 
 
